@@ -33,7 +33,7 @@ META = {
         "thorough": {"evaluations": 200000, "distinct_nontrivial": 40000, "tables": {"op/tensordot": 80000, "op/transpose": 20000}},
     },
     "exhaustive": {"quick": False, "thorough": False},
-    "wall": {"quick": 300, "thorough": 1700},
+    "wall": {"quick": 900, "thorough": 1700},
 }
 
 
